@@ -1,11 +1,20 @@
 #!/bin/bash
-# authoring-time: apply a proposed patch to /repo as one "fix:" commit (message = text before '---')
+# authoring-time: apply a proposed patch to /repo as one "fix:" commit (message = text before the diff)
 set -e
 f="$1"
 cd /repo
 git apply --check "$f"
 git apply "$f"
 /venv/bin/python -m pytest -q -p no:cacheprovider 2>&1 | tail -1 | grep -q "221 passed" || { echo "TESTS CHANGED"; git checkout -- .; exit 1; }
-msg=$(awk '/^---$/{exit} /^--- a\//{exit} /^diff --git/{exit} /^Apply with:/{next} {print}' "$f")
-git commit -qam "$msg"
+python3 - "$f" > /tmp/fixmsg.txt <<'PY'
+import re, sys
+t = open(sys.argv[1]).read()
+m = re.split(r'^(?:---$|--- a/|diff --git)', t, maxsplit=1, flags=re.M)[0]
+m = '\n'.join(l for l in m.split('\n') if not l.startswith('Apply with:'))
+m = re.sub(r'\s*\([^()]*/verif[^()]*\)', '', m)
+m = re.sub(r'\n{3,}', '\n\n', m).strip() + '\n'
+assert m.startswith('fix:'), m[:80]
+sys.stdout.write(m)
+PY
+git commit -qa -F /tmp/fixmsg.txt
 git log --oneline | head -1
